@@ -12,7 +12,7 @@ func init() {
 	register(&propertyDef{
 		id:    "C15",
 		title: "optional, one-of and or-disabled inputs mean what their tags say",
-		rules: []ruleFunc{c15R1, c15R2, c15R3, c15Shared, c15R7},
+		rules: []ruleFunc{c15R1, c15R2, c15R3, c15Shared, c15R7, c15R8},
 		decided: "the tag table of the YAML conversion: each tag dispatches to its builder, !soft-optional -> WaitForCompletion=false, !wait-optional -> true, !ordisabled -> one-of with discriminator `result`, option `enabled` = the given expression, option `disabled` = <step path>.disabled.output, !oneof requires `discriminator` and `one_of` (R1); " +
 			"run-time selection: an optional value is absent exactly when its group node is not among the parent's resolved dependencies and is otherwise the evaluation of its expression, absent values are dropped from maps; a one-of takes the option named by a resolved dependency of type Or, with the discriminator set to that option id, and the writer and reader of option node ids use the same separator (R2); " +
 			"group node ids are derived from the consumer node id and the path of the tagged field, which grows at every nesting level (R3); tags map to their dependency kinds (C10.R2) and all walkers know the three kinds (C02.R1); a step accounts for every And-successor of a finished stage, so `disabled` is always finished or impossible once enabling finished (R6 = C12.R9). The stage-failure handler marks the stage node and all output nodes of the failed stage (R7); the discriminator is the last write into a one-of value (R2).",
@@ -516,8 +516,232 @@ func c15R7(c *Ctx) {
 		end := func(in ssa.Instruction) bool { return isReturn(in) || calls(notify)(in) }
 		p1 := c.findPath(h, nil, calls(markOut), end)
 		p2 := c.findPath(h, nil, calls(markStage), end)
+		if sweepOK, sweepWhy := c.completionSweep(); sweepOK && (p1 != nil || p2 != nil) && (p1 == nil || p2 == nil) {
+			// one of the two marks is missing: the rest is decided when the step completes
+			c.ok(rule, key, c.pos(h.Pos()), "the handler marks only part of the failed stage's nodes; the rest is decided at the step's completion: "+sweepWhy, true)
+			continue
+		}
 		c.verdict(p1 == nil && p2 == nil, rule, key, c.pos(h.Pos()), "output nodes and stage node are both marked on every path before the notification",
 			"a stage can be declared impossible without marking its stage node (or its output nodes) unresolvable: fields that refer to the whole stage (or to one output) then never finish one way or the other", append(p1, p2...)...)
 	}
 	c.minCount(rule, "stage-failure handlers", n, 1)
+}
+
+// C15.R8 every stage that has outputs is decided by the time the step goroutine ends.
+func c15R8(c *Ctx) {
+	const rule = "C15.R8"
+	c.explain("C15.R8 a `!wait-optional` (or `!ordisabled`) reference to <step>.<stage>.<output> is evaluated only once that output is decided: produced, or impossible. On every explored path of a step goroutine, every declared stage that has outputs is therefore reported finished or impossible before the goroutine ends — by the provider, or by the run loop, which on a step's completion declares every stage of that step that was not finished impossible (a loop over the step's lifecycle stages that marks the stage node and its output nodes unresolvable and then notifies, under the run lock; sound because no explored path finishes a stage after the completion); a stage left undecided keeps every field that waits for it pending — the run can then only end through the fallback detector, with an error although its output was producible. One obligation per (provider, final stage, undecided stage)")
+	sweep, sweepWhy := c.completionSweep()
+	c.verdict(true, rule, "completion-sweep", "-", sweepWhy, sweepWhy)
+	for _, prov := range []string{"plugin", "foreach"} {
+		ts := c.stepTraces(prov)
+		if len(ts.undecided) > 0 || len(ts.traces) == 0 {
+			c.undecided(rule, "explore:"+prov, "-", "the step goroutine could not be explored exhaustively: "+strings.Join(ts.undecided, "; "))
+			continue
+		}
+		// the sweep is sound only if a step finishes no stage after its completion
+		late := ""
+		for _, si := range distinctSequences(ts) {
+			done := false
+			for _, e := range si.notifs {
+				if e.Kind == "complete" {
+					done = true
+				} else if done && e.Kind == "change" {
+					late = si.key
+				}
+			}
+		}
+		c.verdict(late == "", rule, "nothing-finishes-after-completion:"+prov, "-", "on every explored path the completion is the last stage the step reports finished (only impossibility reports follow)",
+			"a stage is reported finished after the step's completion ("+late+"): the run loop declares the unfinished stages of a completed step impossible, so resolving one afterwards fails")
+		pkg := pkgPlugin
+		if prov == "foreach" {
+			pkg = pkgForeach
+		}
+		pl := c.newPlit(pkg)
+		if pl == nil {
+			continue
+		}
+		stages := pl.lifecycleStages()
+		decl, dynamic, _ := pl.lifecycleOutputs()
+		hasOutputs := map[string]bool{}
+		for _, d := range decl {
+			hasOutputs[d.stage] = true
+		}
+		for st := range dynamic {
+			hasOutputs[st] = true
+		}
+		type miss struct {
+			pos    string
+			sample string
+			n      int
+		}
+		missing := map[string]*miss{}
+		decided := map[string]bool{}
+		for _, si := range distinctSequences(ts) {
+			fin, failed := map[string]bool{}, map[string]bool{}
+			end := ""
+			for _, e := range si.notifs {
+				switch e.Kind {
+				case "change":
+					if e.Args[0] != "nil" {
+						fin[e.Args[0]] = true
+					}
+				case "complete":
+					fin[e.Args[0]] = true
+					end = e.Args[0]
+				case "fail":
+					failed[e.Args[0]] = true
+				}
+			}
+			if end == "" || end == "?" {
+				continue // reported by C12.R4
+			}
+			if end == "closed" && !sweep {
+				continue // the step was closed: the run is being torn down, nothing waits for its stages any more
+			}
+			// the DAG propagates impossibility along And-edges: a stage with an impossible And-predecessor is impossible
+			for changed := true; changed; {
+				changed = false
+				for p, sd := range stages {
+					if !failed[p] || sd == nil {
+						continue
+					}
+					for nx, kind := range sd.nexts {
+						if kind == "AndDependency" && !failed[nx] && !fin[nx] {
+							failed[nx] = true
+							changed = true
+						}
+					}
+				}
+			}
+			for st := range stages {
+				if !hasOutputs[st] {
+					continue
+				}
+				key := fmt.Sprintf("undecided-stage:%s:%s:%s", prov, end, st)
+				if fin[st] || failed[st] {
+					if _, bad := missing[key]; !bad {
+						decided[key] = true
+					}
+					continue
+				}
+				delete(decided, key)
+				m := missing[key]
+				if m == nil {
+					pos := "-"
+					if len(si.notifs) > 0 {
+						pos = si.notifs[len(si.notifs)-1].Pos
+					}
+					m = &miss{pos: pos, sample: si.key}
+					missing[key] = m
+				}
+				m.n += si.count
+			}
+		}
+		for _, key := range sortedKeys(decided) {
+			if _, bad := missing[key]; !bad {
+				c.ok(rule, key, "-", "decided (finished or impossible) on every path that ends in this stage", true)
+			}
+		}
+		for _, key := range sortedKeys(missing) {
+			m := missing[key]
+			parts := strings.Split(key, ":")
+			if sweep {
+				c.ok(rule, key, m.pos, "not reported by the provider, decided by the run loop when the step completes: "+sweepWhy, true)
+				continue
+			}
+			c.bad(rule, key, m.pos, fmt.Sprintf("on %d explored paths of the %s step that complete in stage `%s`, the stage `%s` (which has outputs) is neither reported finished nor impossible (e.g. %s): a `!wait-optional $.steps.<id>.%s.<output>` field is never decided, and a run whose output is producible ends with `no steps running, no more executable steps`", m.n, prov, parts[2], parts[3], m.sample, parts[3]))
+		}
+	}
+}
+
+// completionSweep: the run loop's OnStepComplete handler (followed into the closure / helpers it owns) contains a loop
+// over the completed step's lifecycle stages in which the stage node obtained from GetStageNodeID is resolved as
+// `unresolvable`, the stage's outputs are marked unresolvable, and notifySteps is called on every path after the loop.
+func (c *Ctx) completionSweep() (bool, string) {
+	markOut := c.Fn("(*workflow.loopState).markOutputsUnresolvable")
+	notify := c.Fn("(*workflow.loopState).notifySteps")
+	stageNodeID := c.FnOpt("workflow.GetStageNodeID")
+	if markOut == nil || notify == nil || stageNodeID == nil {
+		return false, "helpers not found"
+	}
+	la := c.Locks()
+	L := c.runLock()
+	why := "the run loop's completion handler has no loop that declares the unfinished stages of the completed step impossible"
+	found := false
+	for _, impl := range c.ifaceMethodImpls(pkgStep, "StageChangeHandler", "OnStepComplete") {
+		if pkgPathOf(impl) != pkgWorkflow {
+			continue
+		}
+		for _, g := range c.logicalBody(impl) {
+			for _, li := range loopsOf(g) {
+				// ranges over a `Stages` field
+				if li.Range == nil && li.Next == nil {
+					continue
+				}
+				overStages := false
+				var rng ssa.Value = li.Range
+				if rng == nil && li.Next != nil {
+					if r, ok := li.Next.Iter.(*ssa.Range); ok {
+						rng = r.X
+					}
+				}
+				if rng != nil && derivesFrom(rng, func(v ssa.Value) bool { f := loadedField(v); return f != nil && fieldName(f) == "Stages" }) {
+					overStages = true
+				}
+				if !overStages {
+					continue
+				}
+				var resolve, marks ssa.Instruction
+				for b := range li.Blocks {
+					for _, in := range b.Instrs {
+						cc := callCommon(in)
+						if cc == nil {
+							continue
+						}
+						if cc.IsInvoke() && cc.Method.Name() == "ResolveNode" && len(cc.Args) == 1 {
+							if s, ok := constString(cc.Args[0]); ok && s == "unresolvable" {
+								// the node is the stage node of the current stage
+								if derivesFrom(cc.Value, func(v ssa.Value) bool {
+									call, ok := v.(*ssa.Call)
+									if !ok || !call.Common().IsInvoke() || call.Common().Method.Name() != "GetNodeByID" || len(call.Common().Args) != 1 {
+										return false
+									}
+									return derivesFrom(call.Common().Args[0], func(w ssa.Value) bool {
+										c2, ok := w.(*ssa.Call)
+										return ok && c2.Common().StaticCallee() == stageNodeID
+									})
+								}) {
+									resolve = in
+								}
+							}
+						}
+						if cc.StaticCallee() == markOut {
+							marks = in
+						}
+					}
+				}
+				if resolve == nil || marks == nil {
+					continue
+				}
+				must, _ := la.Held(resolve)
+				if L == nil || !must[L] {
+					why = "the completion sweep in " + c.fnName(g) + " does not hold the run lock"
+					continue
+				}
+				// notifySteps on every path from the loop to the return
+				isNotify := func(in ssa.Instruction) bool {
+					call, ok := in.(*ssa.Call)
+					return ok && call.Common().StaticCallee() == notify
+				}
+				if p := c.findPath(g, resolve, isNotify, isReturn); p != nil {
+					why = "the completion sweep in " + c.fnName(g) + " can return without notifying the run loop"
+					continue
+				}
+				found = true
+				why = "on a step's completion " + c.fnName(g) + " resolves every still-waiting stage node of that step as unresolvable, marks its outputs unresolvable and notifies, under the run lock"
+			}
+		}
+	}
+	return found, why
 }
